@@ -3,35 +3,47 @@
 Contracts (written from the property text; r = the returned scalar, x_0..x_{n-1} = the elements of the argument in
 row-major order; for a lazy-expression argument x_k is the scalar operator applied to element k of the operands):
 
-  sum(x), x.sum()        r == x_0 + ... + x_{n-1}              ATOMS/LIN (int32 with real adders, float/double in the ring
-                                                               reinterpretation): "every element exactly once, nothing else";
-                                                               int32 additionally SYM (full 2^(32n) domain) where the SAT
-                                                               problem is tractable (n <= V+1)
-  min(x) / max(x)        (exists k. r is bit-identical to x_k) and (forall k. r <= x_k  /  r >= x_k)       SYM, full domain;
-                         float/double: requires "no NaN" (stated; min/max of NaN data is not specified by the property);
-                         the family *-flt additionally requires finite data, *-flt-inf admits +-infinity
-  all_of/any_of/none_of  r == AND_k x_k  /  OR_k x_k  /  NOT OR_k x_k  on bool tensors (requires: bytes are 0/1) and on
-                         comparison expressions (A < B, A == B, ...) of int and float tensors                      SYM
-  isequal(a,b[,tol])     r == AND_k |a_k - b_k| < tol  (int: default tol 1e-14 < 1, i.e. AND_k a_k == b_k)           SYM
-  issymmetric(A)         r == AND_ij |a_ij - a_ji| <= tol                                                            SYM
-  trace(A)               r == sum_i a_ii                          ATOMS/LIN (int, float, double) and SYM (int)
-  inner(a,b)             r == sum_k a_k*b_k as a polynomial       ATOMS (A/B atoms)
-  norm(a)                r == sqrt(sum_k a_k*a_k): the radicand is proved as a polynomial (ATOMS with the symmetric
-                         product table, atoms='AA'), sqrt is an uninterpreted function applied once to that radicand;
-                         NOT decided: that sqrts() rounds correctly, and the n*eps error bound of the floating sum
-  product(x)             B01 (bounded): inputs in {0,1}, r == x_0*...*x_{n-1}; int32 n == 2 also SYM (one real multiplier)
-  determinant(A), n<=4   B01 (bounded): inputs in {0,1}, r == Leibniz sum over permutations (closed-form strategies only)
-Not decided here: LU/QR based determinants (n > 4), isorthogonal (needs a real floating matrix product), every rounding
-bound of the property ("machine arithmetic treated as mathematical": ATOMS proves exactness on integer-valued data only).
+  sum(x), x.sum()        r == x_0 + ... + x_{n-1}      ATOMS/LIN for int32, float, double (int64 in the thorough tier): the result
+                         is the polynomial "every element exactly once, nothing else" (int: real 32-bit adders; float/double in
+                         the ring reinterpretation, i.e. exact on integer-valued data; the n*eps bound is not machine-checked).
+                         Sizes 1..2V+3 for every vector width V.  int32 additionally in SYM (all 2^(32n) inputs) for n <= V+1:
+                         re-associated 32-bit adder trees over fully symbolic data are not decided beyond ~9 summands.
+  min(x) / max(x)        (exists k. r is bit-identical to x_k) and (forall k. r <= x_k / r >= x_k), SYM, full domain, in the
+                         equivalent form with a universally quantified position j (see minmax_case).  float/double: requires
+                         "no NaN" (min/max of NaN data is not specified by the property); families *-flt additionally require
+                         finite data, *-flt-inf admit +-infinity.  Sizes up to V+1 (<= 9 in the quick tier, <= 17 thorough).
+  all_of/any_of/none_of  r == AND_k x_k / OR_k x_k / NOT OR_k x_k  on bool tensors (requires: the bytes are 0/1) and on comparison
+                         expressions (A < B, A == 2, evaluated Tensor<bool>) of int and float tensors                          SYM
+  isequal(a,b[,tol])     r == AND_k |a_k - b_k| < tol.  int (tol 1e-14 or 0.5 < 1): AND_k a_k == b_k, SYM.  float/double: mode UF on
+                         the P0 pipeline -- the subtraction is uninterpreted, abs / compare / tolerance constant are real.
+  issymmetric(A)         r == AND_ij not(|a_ij - a_ji| > 1e-14)  (int SYM with |a| <= 2^30 so that the difference cannot overflow;
+                         float/double UF, requires finite data)
+  trace(A)               r == sum_i a_ii   ATOMS/LIN (int, float, double), SYM for int32 n <= 5; higher-order trace per matrix
+  inner(a,b)             r == sum_k a_k*b_k as a polynomial: ATOMS with A/B atoms (each product a_k*b_k once, no other product)
+  norm(a)                r == sqrt(sum_k a_k*a_k): ATOMS with atoms='AA' (the square of element k is a table bit, any other product
+                         is outside the typing), sqrt is an uninterpreted function of the radicand.  Decided: the radicand is the
+                         specified polynomial and sqrt is applied once to it.  NOT decided: that sqrts() is correctly rounded and
+                         the n*eps error bound of the floating sum.
+  product(x)             B01 (bounded): inputs in {0,1}, r == x_0*...*x_{n-1}  (never counted as proved)
+  determinant(A), n<=4   B01 (bounded): inputs in {0,1}, r == Leibniz sum (closed-form strategies; int n<=4, float/double n<=3:
+                         the 4x4 floating query -- 24 four-fold IEEE products on each side -- is not decided in 900 s)
+Large ATOMS queries are split into a "+typing" and a "+unit" query (see atoms_cases) that together give the same conclusion.
+Not decided / left out: LU- and QR-based determinants (n > 4) and isorthogonal (need real floating products), floating 4x4
+closed-form determinant, product() beyond the 0/1 domain (a single symbolic 32-bit multiplier is already intractable), norm of
+integer tensors, every rounding bound of the property ("machine arithmetic treated as mathematical").
 """
 from units.common import *
+# 64-bit integers as int64_t: on LP64 `long long` (vf.I64) is a different type and never reaches SIMDVector<int64_t,ABI>
+L64 = Ty('int64', 'int64_t', 64, 'int')
 import os
 
 LEVEL_NOTE = ('per instantiation (function, type, size/shape, argument kind, ISA, std): the returned scalar equals the fold of the '
-              'scalar operation over all elements -- SYM (min/max/predicates/isequal/trace-int: all element values), ATOMS/LIN and '
-              'ATOMS (sum, trace, inner, norm radicand: equality of polynomials; floats in the ring reinterpretation, rounding '
-              'bounds not machine-checked; sqrt of norm opaque), B01 bounded (product, closed-form determinant n<=4: inputs 0/1, never '
-              'counted as proved). LU/QR determinants and isorthogonal are not decided. float min/max: requires no NaN.')
+              'scalar operation over all elements.  SYM, all element values: min/max (floats: requires no NaN), all_of/any_of/none_of, '
+              'isequal and issymmetric on ints, trace/sum of int32 for small n.  UF (float subtraction uninterpreted): isequal/issymmetric on '
+              'floats.  ATOMS (equality of polynomials, floats in the ring reinterpretation; queries with more than 10 table entries are '
+              'split into a typing query over all 0/1 tables and a value query over the unit tables): sum, trace, inner, the radicand of norm '
+              '(sqrt opaque).  B01 bounded, never counted as proved: product, closed-form determinant.  Not decided: rounding bounds, '
+              'LU/QR determinants, isorthogonal, float 4x4 determinant, correct rounding of sqrt.')
 
 FLT_MAX = {32: 3.4028234663852886e+38, 64: 1.7976931348623157e+308}
 ALL_TYPES = (INT, FLT, DBL)
@@ -72,6 +84,35 @@ def cid(fam, ty, shape, kind, cfg, extra=''):
     return 'C16/%s/%s/%s/%s%s/%s' % (fam, ty.name, shp(shape), kind, extra, cfg.tag())
 
 # ----------------------------------------------------------------------------------------------
+# ATOMS queries.  The value clause "result == specified sum" over *all* 0/1 tables is an equivalence of two differently
+# associated adder trees over n one-bit summands (a population count); the SAT back end decides it quickly up to about a
+# dozen summands and not at all beyond ~30.  Larger instances are therefore split into two queries that together give the
+# same conclusion:
+#   +typing  for EVERY 0/1 table: no operation leaves the provenance typing (applicability obligation) and every output is
+#            a ring value (no poison reached it).  Hence no product of two non-zero data values was ever formed, i.e. the
+#            output is an affine-linear function of the table bits (its multilinear form has no term of degree >= 2).
+#   +unit    for every table with AT MOST ONE non-zero entry (entry number s, s symbolic): output == specified sum.  An
+#            affine-linear function is determined by its values at 0 and at the unit vectors, so all coefficients agree.
+# ----------------------------------------------------------------------------------------------
+SPLIT_AT = 10
+
+def atoms_cases(mkid, body, bufs, outs, monomials, cfg):
+    """outs: [(buf,k,E)] value clauses; monomials: the table entries (as E) the outputs may depend on."""
+    if len(monomials) <= SPLIT_AT:
+        return [Case(mkid(''), 'C16', body, bufs, outs, 'ATOMS', cfg)]
+    typing = Case(mkid('+typing'), 'C16', body, bufs,
+                  [('bool', '%s[%d] is a ring value (no ill-typed operation reached it)' % (b.name, k), E.post(b, k).ringval(e)) for (b, k, e) in outs],
+                  'ATOMS', cfg)
+    s = Scalar('s_', INT, 0, len(monomials) - 1)
+    lits = [E.arg(s).cmp('eq', E.const(i, INT)).bor(m.same(E.const(0, m.ty))) for i, m in enumerate(monomials)]
+    req = [conj(lits[i:i + 32]) for i in range(0, len(lits), 32)]      # few large clauses: contract instrumentation is per clause
+    unit = Case(mkid('+unit'), 'C16', body, bufs, outs, 'ATOMS', cfg, requires=req, scalars=[s])
+    return [typing, unit]
+
+def inputs_of(bufs):
+    return [E.inp(b, k) for b in bufs if b.role == 'in' for k in range(b.n)]
+
+# ----------------------------------------------------------------------------------------------
 # sum
 # ----------------------------------------------------------------------------------------------
 def sum_case(ty, shape, cfg, kind, mode='ATOMS'):
@@ -85,8 +126,9 @@ def sum_case(ty, shape, cfg, kind, mode='ATOMS'):
         bufs, decl, x, el = argument(ty, shape, kind, atoms)
         call = 'sum(%s)' % x
     body = '    %s\n    c[0] = %s;' % (decl, call)
-    fam = 'sum' if mode == 'ATOMS' else 'sum-sym'
-    return Case(cid(fam, ty, shape, kind, cfg), 'C16', body, bufs + [c], [(c, 0, E.total(el, ty))], mode, cfg)
+    if mode == 'ATOMS':
+        return atoms_cases(lambda v: cid('sum', ty, shape, kind + v, cfg), body, bufs + [c], [(c, 0, E.total(el, ty))], inputs_of(bufs), cfg)
+    return [Case(cid('sum-sym', ty, shape, kind, cfg), 'C16', body, bufs + [c], [(c, 0, E.total(el, ty))], mode, cfg)]
 
 # ----------------------------------------------------------------------------------------------
 # min / max
@@ -190,7 +232,9 @@ def pred_case(pred, shape, cfg, kind, ty=BOOL, rel=None):
     body = '    %s\n    r[0] = %s(%s);' % (decl, pred, x)
     ens = [(r, 0, fold_pred(pred, xs))]
     k2 = kind + ('-' + rel if rel else '')
-    return Case(cid(pred, ty, shape, k2, cfg), 'C16', body, bufs + [r], ens, 'SYM', cfg, requires=req)
+    cs = Case(cid(pred, ty, shape, k2, cfg), 'C16', body, bufs + [r], ens, 'SYM', cfg, requires=req)
+    cs.solver = 'minisat2'     # early-exit loops (symbolic trip count): MiniSat decides these 3-5x faster than CaDiCaL
+    return cs
 
 def isequal_case(ty, shape, cfg, kind, tol=None):
     n = prod(shape)
@@ -251,7 +295,9 @@ def trace_case(ty, M, cfg, kind, mode='ATOMS'):
     bufs, decl, x, el = argument(ty, (M, M), kind, atoms)
     body = '    %s\n    c[0] = trace(%s);' % (decl, x)
     ens = [(c, 0, E.total([el[i * M + i] for i in range(M)], ty))]
-    return Case(cid('trace' if mode == 'ATOMS' else 'trace-sym', ty, (M, M), kind, cfg), 'C16', body, bufs + [c], ens, mode, cfg)
+    if mode == 'ATOMS':
+        return atoms_cases(lambda v: cid('trace', ty, (M, M), kind + v, cfg), body, bufs + [c], ens, inputs_of(bufs), cfg)
+    return [Case(cid('trace-sym', ty, (M, M), kind, cfg), 'C16', body, bufs + [c], ens, mode, cfg)]
 
 def trace_batch_case(ty, P, M, cfg):
     """trace of a higher-order tensor: one trace per trailing MxM matrix."""
@@ -259,7 +305,7 @@ def trace_batch_case(ty, P, M, cfg):
     a = Buf('a', ty, n, 'in', atoms='LIN'); c = Buf('c', ty, P, 'out')
     body = '    %s\n    Tensor<%s,%d> C = trace(A);\n    %s' % (town(ty, (P, M, M), 'a'), ty.cpp, P, copy_out('C', 'c', P))
     ens = [(c, p, E.total([E.inp(a, p * M * M + i * M + i) for i in range(M)], ty)) for p in range(P)]
-    return Case(cid('trace-batch', ty, (P, M, M), 'own', cfg), 'C16', body, [a, c], ens, 'ATOMS', cfg)
+    return atoms_cases(lambda v: cid('trace-batch', ty, (P, M, M), 'own' + v, cfg), body, [a, c], ens, inputs_of([a]), cfg)
 
 def inner_case(ty, shape, cfg, kind):
     n = prod(shape)
@@ -269,7 +315,8 @@ def inner_case(ty, shape, cfg, kind):
     elif kind == 'mixed': decl = tmap(ty, shape, 'a') + ' ' + town(ty, shape, 'b')
     body = '    %s\n    c[0] = inner(A, B);' % decl
     ens = [(c, 0, E.total([E.inp(a, k) * E.inp(b, k) for k in range(n)], ty))]
-    return Case(cid('inner', ty, shape, kind, cfg), 'C16', body, [a, b, c], ens, 'ATOMS', cfg)
+    mono = [E.inp(a, p) * E.inp(b, q) for p in range(n) for q in range(n)]      # every entry of the n x n product table
+    return atoms_cases(lambda v: cid('inner', ty, shape, kind + v, cfg), body, [a, b, c], ens, mono, cfg)
 
 def norm_case(ty, shape, cfg, kind):
     n = prod(shape)
@@ -277,7 +324,8 @@ def norm_case(ty, shape, cfg, kind):
     decl = town(ty, shape, 'a') if kind == 'own' else tmap(ty, shape, 'a')
     body = '    %s\n    c[0] = norm(A);' % decl
     ens = [(c, 0, E.total([E.inp(a, k) * E.inp(a, k) for k in range(n)], ty).sqrt())]
-    return Case(cid('norm', ty, shape, kind, cfg), 'C16', body, [a, c], ens, 'ATOMS', cfg)
+    mono = [E.inp(a, k) * E.inp(a, k) for k in range(n)]     # squares are the only products inside the typing (atoms='AA')
+    return atoms_cases(lambda v: cid('norm', ty, shape, kind + v, cfg), body, [a, c], ens, mono, cfg)
 
 # ----------------------------------------------------------------------------------------------
 # product / determinant (bounded: inputs 0/1)
@@ -350,11 +398,12 @@ def sizes_few(V):
     return sorted({1, 3, V, V + 1, 2 * V + 3})
 
 def sizes_min(V):
-    return sorted({1, 3, V + 1})
+    return sorted({1, 3, min(V, 8) + 1})
 
 def sizes_minmax(V, full):
     """min/max: the full-domain order reasoning is decided quickly up to about 9 elements (17 for int)"""
     s = {1, 2, 3, V - 1, V, V + 1} | ({2 * V - 1, 2 * V + 1} if full else set())
+    if not full: s = {x for x in s if x <= 9}
     return sorted(x for x in s if 1 <= x <= 17)
 
 def cases(tier, seed):
@@ -366,20 +415,21 @@ def cases(tier, seed):
             cfg = Cfg(isa, std)
             main_std = std == 'c++14'
             full = thorough and main_std           # the large box: thorough tier, main language standard
-            for ty in ALL_TYPES + ((I64,) if full else ()):
+            for ty in ALL_TYPES + ((L64,) if full else ()):
                 V = vec_elems(isa, ty)
-                mult_ok = ty is not I64            # emulated 64-bit integer multiplies leave the ATOMS typing / are intractable
+                mult_ok = ty is not L64            # emulated 64-bit integer multiplies leave the ATOMS typing / are intractable
                 # ---- sum: every size 1..2V+3 (every residue modulo the vector width) ----
                 kinds = ['own', 'map', 'expr', 'method', 'method-map', 'expr-sub']
-                szs = sizes_all(V) if (full or (main_std and ty.bits == 32)) else sizes_boundary(V)
+                # quick: every size for float, boundary sizes for int / double (int: plus the SYM family below)
+                szs = sizes_all(V) if (full or (main_std and ty is FLT)) else sizes_boundary(V)
                 for i, n in enumerate(szs):
                     ks = [kinds[(i + t) % 6] for t in (0, 2, 3)] if full else [kinds[(i + ty.bits // 32) % 6]]
-                    for k in ks: out.append(sum_case(ty, (n,), cfg, k))
+                    for k in ks: out += sum_case(ty, (n,), cfg, k)
                 for shape in ([(3, 5), (2, 3, 4)] if not full else [(3, 5), (2, 3, 4), (4, 4), (2, 2, 2, 3)]):
-                    out.append(sum_case(ty, shape, cfg, 'own')); out.append(sum_case(ty, shape, cfg, 'expr'))
+                    out += sum_case(ty, shape, cfg, 'own'); out += sum_case(ty, shape, cfg, 'expr')
                 if ty is INT and main_std:
                     for n in range(1, V + 2):
-                        out.append(sum_case(ty, (n,), cfg, 'own' if n % 2 else 'map', mode='SYM'))
+                        out += sum_case(ty, (n,), cfg, 'own' if n % 2 else 'map', mode='SYM')
                 # ---- min / max ----
                 # (min-int, max-int, max-flt and the *-inf families are defective on the unchanged tree: every failing case
                 #  is replayed natively, so they are kept small in the quick tier)
@@ -402,35 +452,37 @@ def cases(tier, seed):
                 # ---- trace ----
                 if main_std:
                     for M in (range(1, 6) if not full else range(1, 10)):
-                        out.append(trace_case(ty, M, cfg, 'own'))
-                        if M in (2, 3) or full: out.append(trace_case(ty, M, cfg, 'map'))
-                        if M == 3 or full: out.append(trace_case(ty, M, cfg, 'expr'))
-                        if ty is INT and M <= 5: out.append(trace_case(ty, M, cfg, 'own', mode='SYM'))
-                    out.append(trace_batch_case(ty, 2, 3, cfg))
-                    if full: out.append(trace_batch_case(ty, 3, 2, cfg)); out.append(trace_batch_case(ty, 2, 4, cfg))
+                        out += trace_case(ty, M, cfg, 'own')
+                        if M in (2, 3) or full: out += trace_case(ty, M, cfg, 'map')
+                        if M == 3 or full: out += trace_case(ty, M, cfg, 'expr')
+                        if ty is INT and M <= 5: out += trace_case(ty, M, cfg, 'own', mode='SYM')
+                    out += trace_batch_case(ty, 2, 3, cfg)
+                    if full: out += trace_batch_case(ty, 3, 2, cfg); out += trace_batch_case(ty, 2, 4, cfg)
                 else:
-                    out.append(trace_case(ty, 3, cfg, 'own')); out.append(trace_case(ty, 4, cfg, 'expr'))
+                    out += trace_case(ty, 3, cfg, 'own'); out += trace_case(ty, 4, cfg, 'expr')
                 # ---- inner ----
                 if mult_ok:
                     if full: szs = sizes_all(V) + [3 * V, 4 * V - 1, 4 * V, 4 * V + 1, 5 * V + 3, 8 * V + 1]
                     elif main_std: szs = sizes_few(V) + [2 * V - 1, 4 * V + 1]
                     else: szs = [V + 1, 4 * V + 1]
+                    # the n x n product table: n <= 41 in the quick tier, n <= 67 in the thorough tier
+                    szs = [x for x in szs if x <= (67 if full else 41)] + ([] if full or 4 * V + 1 <= 41 else [35])
                     for i, n in enumerate(sorted(set(szs))):
-                        out.append(inner_case(ty, (n,), cfg, ['own', 'map', 'mixed'][i % 3]))
+                        out += inner_case(ty, (n,), cfg, ['own', 'map', 'mixed'][i % 3])
                     if main_std:
                         for shape in [(2, 2), (3, 3), (2, 3, 2)]:
-                            out.append(inner_case(ty, shape, cfg, 'own'))
+                            out += inner_case(ty, shape, cfg, 'own')
                 # ---- norm (floating types) ----
                 if ty.kind == 'float':
                     szs = sizes_few(V) + [4, 9, 4 * V + 1] + ([8 * V + 3] if isa == 'avx512' else [])
                     if full: szs = szs + sizes_all(V) + [3 * V, 4 * V, 5 * V + 3, 6 * V + 1, 8 * V, 8 * V + 3, 9 * V + 1]
                     if not main_std: szs = [4, 9, 2 * V + 3]
                     for i, n in enumerate(sorted(set(szs))):
-                        out.append(norm_case(ty, (n,), cfg, 'own'))
-                        if i % 3 == 0 or full: out.append(norm_case(ty, (n,), cfg, 'map'))
+                        out += norm_case(ty, (n,), cfg, 'own')
+                        if i % 3 == 0 or full: out += norm_case(ty, (n,), cfg, 'map')
                     if main_std:
                         for shape in [(2, 2), (3, 3)]:
-                            out.append(norm_case(ty, shape, cfg, 'own'))
+                            out += norm_case(ty, shape, cfg, 'own')
                 # ---- product (bounded) ----
                 if mult_ok and main_std:
                     szs = sizes_few(V) + [2, V - 1] if not full else sizes_boundary(V)
@@ -468,7 +520,7 @@ def cases(tier, seed):
                         out.append(issymmetric_case(ty, M, cfg, 'own' if M != 2 else 'map'))
             # ---- predicates on bool tensors ----
             for pred in ('all_of', 'any_of', 'none_of'):
-                szs = (1, 2, 3, 5, 8, 16, 17, 33) if full else ((1, 2, 5, 17) if pred != 'none_of' else (1, 5))
+                szs = (1, 2, 3, 5, 8, 9, 16, 17) if full else ((1, 2, 5, 9) if pred != 'none_of' else (1, 5))
                 for i, n in enumerate(szs):
                     out.append(pred_case(pred, (n,), cfg, ['bool-own', 'bool-map'][i % 2]))
                 if full or pred != 'none_of': out.append(pred_case(pred, (2, 3), cfg, 'bool-own'))
@@ -476,3 +528,11 @@ def cases(tier, seed):
     for c in out:
         if c.cid not in seen: seen.add(c.cid); res.append(c)
     return res
+
+
+def evidence_extra(tier):
+    return {'box': {'sizes': 'sum: every n in 1..2V+3 per ISA vector width V; min/max: n <= V+1 (quick <= 9, thorough <= 17); inner/norm: boundary sizes up to 4V+1 / 8V+3',
+                    'argument_kinds': ['owning tensor', 'TensorMap (unaligned)', 'lazy A + B', 'lazy A - B', 'member function', 'rank 2-4 shapes'],
+                    'bounded_families': ['product-int', 'product-flt', 'det'],
+                    'not_decided': ['LU/QR determinants', 'isorthogonal', 'float/double 4x4 closed-form determinant', 'rounding bounds', 'correct rounding of sqrt in norm',
+                                    'product outside the 0/1 domain', 'norm of integer tensors']}}
